@@ -40,6 +40,14 @@ def run(ck):
                     q["cell"] = p.get("cell", "") + "@" + path
                     progs.append(q)
             npath += 1
+    # every hand-written cell - the runaway ones included - is also entered with a context that is already done: the call must return
+    for p in list(progs):
+        if p.get("raw") and "@" not in p.get("cell", "") and "cyclic" not in p.get("cell", "") and (not quick or p["id"] % 2 == 0 or "runaway" in p.get("cell", "")):
+            q = dict(p)
+            q["id"] = len(progs) + 1
+            q["path"] = "compiled-cancelled"
+            q["cell"] = p.get("cell", "") + "@compiled-cancelled"
+            progs.append(q)
     I = lambda n: {"k": "int", "n": n}
     Sv = lambda t: {"k": "string", "b": [ord(c) for c in t]}
     A = lambda *e: {"k": "array", "imm": False, "e": list(e)}
@@ -95,7 +103,7 @@ def run(ck):
                     first.get("kind"), str(again.get("msg") or again)[:200], p["src"]), rep)
                 continue
         bad = []
-        for step in ("compile", "run", "getall", "set", "set_unknown", "rerun", "clone", "clone_run", "encode_globals", "repair_set", "repaired_run"):
+        for step in ("compile", "run", "getall", "getall_use", "set", "set_unknown", "rerun", "clone", "clone_run", "encode_globals", "repair_set", "repaired_run"):
             v = o.get(step)
             if isinstance(v, str) and v.startswith("panic:"):
                 bad.append((step, v))
